@@ -121,6 +121,8 @@ def run(ctx):
             expected="None when the key is absent", found=found[:200])
 
     kconfig_rules(ctx, ev)
+    template_defaults(ctx)
+    configuration_values(ctx)
 
     R.rule("C13-D2d assign_role plumbing", 4, "assign_role receives vendor, class and role of one entry; configured assignments are applied after the defaults")
     init = repo.func(IMG, "EnvelopeStorage.__init__")
@@ -146,6 +148,10 @@ def run(ctx):
             return out
         if isinstance(t, App) and t.op in ("call:list", "listof", "call:tuple") and len(t.args) == 1:
             return parts(t.args[0])
+        if isinstance(t, App) and t.op == "mutated" and len(t.args) == 3 and t.args[1] in (Const("extend"), Const("__iadd__")):
+            return parts(t.args[0]) + parts(t.args[2])  # xs.extend(ys): xs first, then ys
+        if isinstance(t, App) and t.op in ("loopout", "loopvar", "maybe_assigned"):
+            return parts(t.args[-1])
         return [t]
     n_calls = 0
     seen_kinds = set()
@@ -192,6 +198,86 @@ def run(ctx):
     R.check("C13-D2d assign_role plumbing", True, "sources recognised")
 
 
+def configuration_values(ctx):
+    """BuildConfiguration._parse: a quoted value is text, whatever it looks like.  Vendor and class names reach the UUID derivation
+    through this parser; a name such as "0042", "0x1F" or "y" must stay the name.  The value depends on the raw text only through a
+    few syntactic tests, so one representative per combination of them is a complete decision table (evaluated on the extracted term)."""
+    R = ctx.report
+    repo = ctx.repo
+    fi = repo.func("build_configuration.configuration", "BuildConfiguration._parse")
+    fq = ctx.fq(fi)
+    R.rule("C13-D4 quoted configuration values stay text", 5, "per syntactic class of a quoted value: the stored value is the text between the quotes")
+    outs = [o for o in Evaluator(repo, inline_depth=0).outcomes(fi) if o.kind == "return"]
+    stores = [e.args[0] for o in outs for e in all_effects(o.effects) if isinstance(e, App) and e.op == "eff:call" and isinstance(e.args[0], App)
+              and e.args[0].op in ("supercall:__setitem__", "meth:__setitem__")]
+    stores += [App("x", (e.args[0], e.args[1], e.args[2])) for o in outs for e in all_effects(o.effects) if isinstance(e, App) and e.op == "eff:store"]
+    if len(stores) != 1:
+        raise AnalysisError(f"{fq}: store of the parsed value not recognised ({len(stores)})")
+    val = stores[0].args[-1]
+    raws = [s_ for s_ in subterms(val) if isinstance(s_, App) and s_.op == "meth:group" and s_.args[1:] == (Const("kconfig_value"),)]
+    if not raws:
+        raise AnalysisError(f"{fq}: raw value (group 'kconfig_value') not found in the stored term")
+    RAW = raws[0]
+    table = {'"0042"': "0042", '"0x1F"': "0x1F", '"y"': "y", '"nordicsemi.com"': "nordicsemi.com", '"42"': "42", '""': "", '"n"': "n"}
+    for raw, want in table.items():
+        try:
+            got = teval(val, {RAW: raw})
+        except Unknown as e:
+            raise AnalysisError(f"{fq}: stored value not evaluable for {raw!r}: {e}")
+        R.check("C13-D4 quoted configuration values stay text", got == want and type(got) is type(want), f"{raw} -> {want!r}", mod=fi.module, node=fi.node,
+                function=fq, expected=f"{want!r} (text)", found=f"{got!r} ({type(got).__name__})", key_extra=raw)
+
+
+def template_defaults(ctx):
+    """The names a template falls back to when a SB_CONFIG_SUIT_MPI_<M>_{VENDOR,CLASS}_NAME option is absent are literals, and the pair
+    is the pair the storage layer assigns to that role by default: otherwise the class id embedded in the manifest is one that
+    `image boot` / the MPI record (which use the defaults independently) do not know."""
+    import json
+    import jinja2
+    from jinja2 import nodes as jn
+    from sa.report import VERIF
+    R = ctx.report
+    repo = ctx.repo
+    R.rule("C13-D3 template fallback names", 6, "default(<literal>) per option; (vendor, class) fallback pair = a default pair of the storage layer with the role of that manifest")
+    abi = json.loads((VERIF / "reference" / "storage_abi.json").read_text())
+    pairs = {}
+    for soc, table in abi["default_classes"].items():
+        for cname, e in table.items():
+            pairs[(e["vendor"], cname)] = e["role"]
+    env = jinja2.Environment()
+    found = {}
+    n = 0
+    for rel, text in sorted(repo.extra.items()):
+        if not rel.endswith(".jinja2"):
+            continue
+        tree = env.parse(text)
+        for a in tree.find_all(jn.Assign):
+            v = a.node
+            if not (isinstance(v, jn.Filter) and v.name == "default"):
+                continue
+            keys = [g.arg.value for g in v.find_all(jn.Getitem) if isinstance(g.arg, jn.Const) and isinstance(g.arg.value, str)]
+            opt = next((k for k in keys if re.fullmatch(r"SB_CONFIG_SUIT_MPI_[A-Z0-9_]+_(VENDOR|CLASS)_NAME", k)), None)
+            if opt is None:
+                continue
+            n += 1
+            m_ = re.fullmatch(r"SB_CONFIG_SUIT_MPI_([A-Z0-9_]+)_(VENDOR|CLASS)_NAME", opt)
+            lit = v.args[0].value if v.args and isinstance(v.args[0], jn.Const) and isinstance(v.args[0].value, str) else None
+            R.check("C13-D3 template fallback names", lit is not None, f"{rel}: {opt}", file=rel, line=a.lineno, function=f"template {rel}",
+                    construct=f"{opt}|default", expected="default('<literal name>'): independent of the other options, like the storage layer's own default",
+                    found="the fallback is computed from another value" if lit is None else "", key_extra=opt)
+            found.setdefault((rel, m_.group(1)), {})[m_.group(2)] = lit
+    if n < 6:
+        raise AnalysisError(f"only {n} MPI name options with a default found in the templates")
+    for (rel, man), d in sorted(found.items()):
+        if d.get("VENDOR") is None or d.get("CLASS") is None:
+            continue
+        want_role = "APP_ROOT" if man == "ROOT" else man
+        got = pairs.get((d["VENDOR"], d["CLASS"]))
+        R.check("C13-D3 template fallback names", got == want_role, f"{rel}: {man} falls back to ({d['VENDOR']}, {d['CLASS']})", file=rel, line=0,
+                function=f"template {rel}", construct=f"{man}|pair", expected=f"a default pair of the storage layer with role {want_role}",
+                found=f"role {got}" if got else "not a default pair of the storage layer", key_extra=man)
+
+
 def kconfig_rules(ctx, ev):
     R = ctx.report
     repo = ctx.repo
@@ -217,6 +303,8 @@ def kconfig_rules(ctx, ev):
 
     def key_parts(t):
         # config[ 'SB_CONFIG_SUIT_MPI_' + str(manifest) + '_X_NAME' ]
+        while isinstance(t, App) and t.op in ("str", "call:str") and len(t.args) == 1:
+            t = t.args[0]  # str(<configuration value>): the value is text already (C13-D4)
         if isinstance(t, App) and t.op == "idx":
             parts = cat_parts(t.args[1])
             if len(parts) == 3 and isinstance(parts[0], Const) and isinstance(parts[2], Const):
@@ -241,7 +329,7 @@ def kconfig_rules(ctx, ev):
             mod=fi.module, node=appends[0].node, function=fq, expected="both keys built from the same matched manifest name",
             found=f"vendor key {repr(entry.get('vendor_name'))[-120:]}, class key {repr(entry.get('class_name'))[-120:]}")
     # the manifest name is the regex group of the key being iterated
-    manifest = kv_[2] if kv_ else None
+    manifest = kv_[2] if kv_ else (kc[2] if kc else None)
     grp_ok = manifest is not None and any(isinstance(s, App) and s.op == "meth:group" and s.args[1:] == (Const("manifest"),)
                                           for s in subterms(manifest))
     rx = [s for s in subterms(manifest) if isinstance(s, App) and s.op == "call:re.match"] if manifest is not None else []
